@@ -10,3 +10,19 @@ Theorem C06_prolly_bin_search_spec :
   forall (s : list N) (target : N), sorted s -> prolly_bin_search s target = Some (lower_bound s target).
 Proof. exact prolly_bin_search_spec. Qed.
 Print Assumptions C06_prolly_bin_search_spec.
+
+(* partial: see C06/Proofs.v for what is missing (byte-level index decode, iterate permutation) *)
+Theorem C06_table_roundtrip_partial :
+  forall (crc : bytes -> N) (compress : bytes -> bytes) (decompress : bytes -> option bytes),
+    (forall d, decompress (compress d) = Some d) ->
+    forall ts rs (content : addr -> bytes),
+      valid_tuples ts rs -> distinct_addrs rs ->
+      (forall k, (k < length rs)%nat ->
+         wf_rec crc compress (nth k rs dummy_rec) (content (r_addr (nth k rs dummy_rec)))) ->
+      let t := mkTable (write_table_with ts rs) (build_pindex ts rs) in
+      table_count t = nlen rs /\ table_unc t = total_unc rs
+      /\ (forall h, table_get crc decompress t h = ROk (if in_table rs h then Some (content h) else None))
+      /\ (forall h, table_has t h = in_table rs h)
+      /\ (forall h, lookup (t_ix t) h = lookup_spec rs h).
+Proof. exact table_roundtrip_partial. Qed.
+Print Assumptions C06_table_roundtrip_partial.
